@@ -114,6 +114,12 @@ CLAIMED = {
         "stateful property testing with boundary-value generators and a read-back invariant",
         "DESIGN.md §4 C18",
     ),
+    "C19": (
+        "Model-based stateful property testing of the three factories and the swap router over a universe of nine assets (five native denoms with registered decimals, four cw20 tokens with different decimals): generated histories of create / remove / re-create of pairs, trios, vaults and incentive contracts with the assets in generated orders, adding / removing / executing 1..3-hop routes (free and built along registered pairs), and paginated listings with limits in 1..31 followed to the end. Reference model = sets of unordered asset sets. Duplicates in any order must be rejected and new sets accepted; each registry entry (queried in every asset order) must equal what the child itself reports; removed entries disappear and can be created again; concatenated pages equal the model set exactly once each; a route is stored only if every hop is a registered pair, and executing a route through a de-registered pair fails.",
+        "Fixed-length asset names (key collisions are outside the statement). Incentive factory has no remove message. Routes are keyed by asset labels; the universe has distinct labels.",
+        "stateful / model-based property testing with a set-valued reference model",
+        "DESIGN.md §4 C19",
+    ),
     "C02": (
         "Generated-input search (proptest, 16 deterministic shards) over the whole documented domain [1,2^128)^3 x valid fee triples x decimals, judged against an independent exact 1024-bit reference: gross floor, fee floors, strict bound, totality inside the 128-bit domain, there-and-back with the case's fees and with zero fees, gross monotone in the offer. Exploration, not proof: millions of cases per quick run, hundreds of millions thorough, with boundary constants and extreme-ratio shapes weighted in.",
         "Trusts refmath.rs (bnum integers, self-tested at start-up) and that commands::swap / queries::query_simulation call the hooked compute_swap (cross-checked by C14). A panic is an abort.",
